@@ -1,0 +1,43 @@
+//go:build verif
+
+// Contracts for the govc verifier (/verif/govc). Comment-only; see core/zz_contracts_verif.go.
+
+package cron
+
+//@ extern-pure (*time.Timer).Stop, (*time.Timer).Reset
+
+// ---- C16: the in-memory cron ------------------------------------------------------------------
+// sort.Search returns an index in [0, n] (assumed contract of the dependency).
+//@ extern sort.Search
+//@   ensures result >= 0 && result <= n
+//@   pure-effects
+
+//@ ghost cronRemoved string
+//@ ghost rescheduled bool gate
+
+//@ func (*Cron).rem
+//@   ensures[C16.rem_removes_at_most_one] len(c.Timeline) == old(len(c.Timeline)) || (result0 && len(c.Timeline) == old(len(c.Timeline)) - 1)
+//@   ensures[C16.rem_not_found_keeps]     !result0 ==> len(c.Timeline) == old(len(c.Timeline))
+//@   loop 1: invariant[C16.rem_loop] !found && len(c.Timeline) == old(len(c.Timeline))
+//@   ghost-ensures cronRemoved == id
+//@   also-modifies cronRemoved
+
+//@ func (*Cron).insert
+//@   ensures[C16.insert_adds_one] len(c.Timeline) == old(len(c.Timeline)) + 1
+//@   ensures[C16.insert_index]    result >= 0 && result <= old(len(c.Timeline))
+
+//@ func (*Cron).schedule
+//@   assert[C16.schedule_removes_same_id_first] at "c.insert(ctx, job)": cronRemoved == job.Id
+//@   assert[C16.schedule_inserts_under_lock]    at "c.insert(ctx, job)": heldW(c.Mutex)
+//@   ghost-ensures rescheduled
+//@   also-modifies rescheduled
+
+//@ func (*Cron).start
+//@   assert[C16.fires_only_when_due] at "c.resetTimer()": nanos(now) >= nanos(job.Next)
+//@   assert[C16.pops_under_lock]     at "c.resetTimer()": heldW(c.Mutex)
+
+//@ funcval (*Cron).run.Fn
+//@   modifies allbut(F:cron.CronJob.)
+//@ func (*Cron).run
+//@   ensures[C16.oneshot_not_rescheduled] old(job.Expression) == nil ==> !rescheduled
+//@   ensures[C16.recurring_rescheduled]   old(job.Expression) != nil ==> rescheduled
